@@ -29,3 +29,61 @@ pub assume_specification<'a, K: Eq + std::hash::Hash + std::borrow::Borrow<Q>, V
       None => !contains_borrowed_key(old(m)@, k) && final(m)@ == old(m)@,
     });
 
+
+// ---- time, sleeping, diagnostics output (event loop) ----
+use vstd::std_specs::ops::*;
+use vstd::std_specs::cmp::*;
+use std::time::{Instant, Duration};
+#[verifier::external_type_specification]
+#[verifier::external_body]
+pub struct ExInstant(std::time::Instant);
+pub uninterp spec fn inst_ns(i: Instant) -> int;     // nanoseconds since an arbitrary epoch (mathematical integer)
+pub uninterp spec fn dur_ns(d: Duration) -> int;
+pub uninterp spec fn is_now_reading(i: Instant) -> bool;   // marks the values returned by Instant::now()
+pub assume_specification [std::time::Instant::now] () -> (r: std::time::Instant)
+  ensures is_now_reading(r);
+pub assume_specification [std::time::Duration::from_millis] (ms: u64) -> (r: std::time::Duration)
+  ensures dur_ns(r) == ms * 1000000;
+pub assume_specification [std::thread::sleep] (d: std::time::Duration);
+pub assume_specification [std::io::_eprint] (a: std::fmt::Arguments<'_>);
+
+// Instant arithmetic: integer arithmetic on the uninterpreted nanosecond views. std documents `Instant + Duration` to panic
+// on overflow of the underlying representation; the model makes that a precondition for durations above ADD_SAFE_NS
+// (about 24.8 days, i32::MAX milliseconds): adding a duration that came from a non-negative i32 millisecond count never
+// overflows, adding a wrapped negative one (u64 above 2^63 ms) is not allowed.
+pub open spec fn add_safe_ns() -> int { 2147483647int * 1000000int }
+#[verifier::external_body]
+pub broadcast proof fn axiom_instant_add(a: Instant, d: Duration)
+  ensures
+    #![trigger <Instant as AddSpec<Duration>>::add_req(a, d)]
+    #![trigger <Instant as AddSpec<Duration>>::add_spec(a, d)]
+    <Instant as AddSpec<Duration>>::add_req(a, d) == (0 <= dur_ns(d) <= add_safe_ns()),
+    inst_ns(<Instant as AddSpec<Duration>>::add_spec(a, d)) == inst_ns(a) + dur_ns(d),
+{}
+#[verifier::external_body]
+pub broadcast proof fn axiom_instant_obeys_add()
+  ensures #[trigger] <Instant as AddSpec<Duration>>::obeys_add_spec()
+{}
+#[verifier::external_body]
+pub broadcast proof fn axiom_instant_obeys_sub()
+  ensures #[trigger] <Instant as SubSpec<Instant>>::obeys_sub_spec()
+{}
+#[verifier::external_body]
+pub broadcast proof fn axiom_instant_obeys_cmp()
+  ensures #[trigger] <Instant as PartialOrdSpec<Instant>>::obeys_partial_cmp_spec()
+{}
+#[verifier::external_body]
+pub broadcast proof fn axiom_instant_cmp(a: Instant, b: Instant)
+  ensures
+    #[trigger] <Instant as PartialOrdSpec<Instant>>::partial_cmp_spec(&a, &b) == Some(if inst_ns(a) < inst_ns(b) { core::cmp::Ordering::Less } else if inst_ns(a) == inst_ns(b) { core::cmp::Ordering::Equal } else { core::cmp::Ordering::Greater }),
+{}
+// `a - b` on Instants saturates at zero (documented since Rust 1.60)
+#[verifier::external_body]
+pub broadcast proof fn axiom_instant_sub(a: Instant, b: Instant)
+  ensures
+    #![trigger <Instant as SubSpec<Instant>>::sub_req(a, b)]
+    #![trigger <Instant as SubSpec<Instant>>::sub_spec(a, b)]
+    <Instant as SubSpec<Instant>>::sub_req(a, b),
+    dur_ns(<Instant as SubSpec<Instant>>::sub_spec(a, b)) == (if inst_ns(a) >= inst_ns(b) { inst_ns(a) - inst_ns(b) } else { 0 }),
+{}
+pub broadcast group group_instant_axioms { axiom_instant_add, axiom_instant_obeys_add, axiom_instant_obeys_sub, axiom_instant_obeys_cmp, axiom_instant_cmp, axiom_instant_sub }
